@@ -44,13 +44,15 @@ def plan(tier, seed):
     specs = [{"name": "k%02d" % i, "kind": "kernel", "shard": i, "instances": inst, "timeout": 7000} for i in range(n)]
     specs.append({"name": "freq0", "kind": "freq", "shard": 80, "instances": 6 if tier == "quick" else 40, "timeout": 7000})
     specs.append({"name": "freq1", "kind": "freq", "shard": 81, "instances": 6 if tier == "quick" else 40, "timeout": 7000})
+    for i in range(2 if tier == "quick" else 6):
+        specs.append({"name": "cli%d" % i, "kind": "cli", "shard": 90 + i, "datasets": 1 if tier == "quick" else 3, "timeout": 7000})
     return specs
 
 
 def required(tier):
     return {"gibbs_vectors": 5000, "mh_vectors": 5000, "mh_db_edges": 5000, "compound_steps": 1000, "exact_posterior_checked": 50,
             "vectors_inbred": 1000, "vectors_nonflat": 1000, "vectors_zero_freq": 100, "vectors_with_cache": 1000,
-            "freq_runs": 8}
+            "freq_runs": 8, "cli_confident_calls_compared": 5}
 
 
 def make_instance(rng, tier):
@@ -296,8 +298,46 @@ def run_freq(tier, seed, spec, col):
             col.sample({"freq_instance": pack(I), "tv": tv})
 
 
+def run_cli(tier, seed, spec, col):
+    """`mchap call` vs `mchap call-exact` on the same generated BAM dataset (wiring cross-check, deliberately loose)."""
+    import shutil
+
+    from checks import c08
+    from vlib import cli, vcfparse
+
+    for d in range(spec["datasets"]):
+        ds = c08.build(seed, 400 + spec["shard"] * 10 + d, "c02-%s-%d" % (spec["name"], d), depth=(70, 110))
+        base = ["--haplotypes", ds.hapvcf, "--reference", ds.fasta, "--bam"] + ds.bams + ["--ploidy", ds.ploidy_file]
+        oe, ee = cli.run_inproc(["call-exact"] + base)
+        oc, ec = cli.run_inproc(["call"] + base + ["--mcmc-steps", "1500", "--mcmc-burn", "500", "--mcmc-seed", "3"])
+        rep = {"dataset": [seed, spec["shard"], d]}
+        if ee is not None or ec is not None:
+            col.inconclusive_note("call/call-exact raised on a generated dataset: %r / %r" % (ee, ec))
+            continue
+        he, re_ = vcfparse.parse(oe)
+        hc, rc_ = vcfparse.parse(oc)
+        for a, b in zip(re_, rc_):
+            for smp in he.samples:
+                ge = a.samples[smp]
+                gc = b.samples[smp]
+                if ge.get("GPM", ".") in (".", None):
+                    continue
+                pe = float(ge["GPM"])
+                col.count("cli_calls_seen")
+                if pe < 0.95 or gc.get("GPM", ".") == ".":
+                    continue
+                col.count("cli_confident_calls_compared")
+                col.case("CLI|%s|%d|%s|%s" % (rep["dataset"], a.pos, smp, ge["GT"]), nontrivial=True)
+                if ge["GT"] != gc["GT"] or abs(float(gc["GPM"]) - pe) > 0.1:
+                    col.violation("call-disagrees-with-confident-call-exact", "%s:%d sample %s: call-exact GT %s GPM %s, call GT %s GPM %s"
+                                  % (a.chrom, a.pos, smp, ge["GT"], ge["GPM"], gc["GT"], gc["GPM"]), rep)
+        if d == 0:
+            col.sample({"cli_dataset": rep, "records": len(re_), "samples": he.samples})
+        shutil.rmtree(ds.root, ignore_errors=True)
+
+
 def run_shard(tier, seed, spec, col):
-    {"kernel": run_kernel, "freq": run_freq}[spec["kind"]](tier, seed, spec, col)
+    {"kernel": run_kernel, "freq": run_freq, "cli": run_cli}[spec["kind"]](tier, seed, spec, col)
 
 
 def replay(obj, col):
